@@ -1,6 +1,7 @@
 (** C02 - parallel learning is independent of the schedule and always terminates. *)
 From Coq Require Import ZArith List Bool Ring Permutation.
-From PV Require Import Bytes BinFmt Store RWSpec RWExec RWProofs Sched SchedProofs QueueProofs QueueTrace RWMain.
+From PV Require Import Bytes BinFmt Store RWSpec RWExec RWProofs Sched SchedProofs QueueProofs QueueTrace RWMain
+     QueueFaults QueueNowait QueueNowaitProofs RWNowait.
 Import ListNotations.
 
 (** [ndl.slice_list]: for every n >= 1 (also n > len) the parts concatenate to
@@ -172,3 +173,67 @@ Example C02_interleaving_exists :
 Proof.
   intros [|[|[|i]]]; vm_compute; reflexivity.
 Qed.
+
+(** * A second worker protocol: no lock, [get_nowait()] until [queue.Empty] (QueueNowait.v).
+      One step of a thread that asks the queue for work is one atomic queue operation; the machine is the lock machine
+      on a stretched schedule, so every theorem above that holds for every schedule holds for it.  The check aligns the
+      real worker threads step by step with the lock machine (model 205) and, if the code does not follow that one,
+      with this machine (model 206). *)
+Theorem C02_nowait_is_a_lock_run : forall (A : Type) (seqs : list (list A)) fails sched (s : @fstate A),
+  nrun seqs fails sched s = frun seqs fails (expand seqs fails s sched) s.
+Proof. exact @nrun_is_frun. Qed.
+Print Assumptions C02_nowait_is_a_lock_run.
+
+(** in every reachable state the lock is free and every thread is between two queue operations ... *)
+Theorem C02_nowait_quiet : forall (A : Type) (seqs : list (list A)) fails items n sched,
+  quiet (nrun seqs fails sched (@finit A items n)).
+Proof. exact @quiet_reachable. Qed.
+Print Assumptions C02_nowait_quiet.
+
+(** ... so the step of a live thread that asks for work takes the head of the queue and starts on it, in one move, or,
+    on an empty queue, leaves the loop: nothing else changes *)
+Theorem C02_nowait_take_is_atomic : forall (A : Type) (seqs : list (list A)) fails (s : @fstate A) t,
+  quiet s -> at_start s t = true ->
+  nstep seqs fails s t =
+  match queue (qs (ws s)) with
+  | i :: r => {| ws := {| qs := {| queue := r; lock := None; pcs := set_pc (pcs (qs (ws s))) t (PWork i);
+                                   finished := finished (qs (ws s)) |};
+                          prog := QueueTrace.upd (prog (ws s)) t 0; wtrace := wtrace (ws s) |};
+                 dead := dead s; errs := errs s |}
+  | [] => {| ws := {| qs := {| queue := []; lock := None; pcs := set_pc (pcs (qs (ws s))) t PDone;
+                               finished := finished (qs (ws s)) |};
+                      prog := prog (ws s); wtrace := wtrace (ws s) |};
+             dead := dead s; errs := errs s |}
+  end.
+Proof.
+  intros A seqs fails s t [Hl _] Hst. destruct (queue (qs (ws s))) as [|i r] eqn:Hq.
+  - now apply nstep_take_empty.
+  - now apply nstep_take_item.
+Qed.
+Print Assumptions C02_nowait_take_is_atomic.
+
+(** end to end: whatever the schedule and whichever kernel calls fail, if all threads ended and no error was recorded
+    the memory holds the sequential result for the call's outcomes and is untouched elsewhere *)
+Theorem C02_nowait_workers_end_to_end :
+  forall (R : Type) (rO rI : R) (radd rmul rsub : R -> R -> R) (ropp : R -> R),
+    ring_theory rO rI radd rmul rsub ropp (@eq R) ->
+  forall p n_cues all n es n_threads (fails : nat -> nat -> bool) sched m o c,
+    (0 <= n_cues < two32)%Z -> NoDup all -> Forall oko32 all ->
+    cues_ok (okc_n n_cues) es -> (1 <= n)%nat -> (1 <= n_threads)%nat ->
+    let seqs := map (fun part => item_actions part es) (slice_list all n) in
+    let s := nrun seqs fails sched (finit (seq 0 (length seqs)) n_threads) in
+    f_all_done s = true -> call_raises s = None ->
+    oko32 o -> okc_n n_cues c ->
+    kget R rO n_cues (run_trace R rO radd rmul rsub (kstore R) (kget R rO n_cues) (kset R n_cues) p (wtrace (ws s)) m) o c =
+    if mem_z o all then learn R rO rI radd rmul rsub p es (kget R rO n_cues m) o c
+    else kget R rO n_cues m o c.
+Proof. exact threading_nowait_workers_any_schedule. Qed.
+Print Assumptions C02_nowait_workers_end_to_end.
+
+(** non-vacuity: two threads, three one-action items; twelve steps end the run (the lock machine needs more) *)
+Example C02_nowait_run_exists :
+  let seqs := repeat [tt] 3 in
+  let s := nrun seqs (fun _ _ => false) [0; 0; 0; 1; 1; 1; 0; 0; 0; 1; 0; 1]%nat (finit (seq 0 3) 2) in
+  f_all_done s = true /\ map fst (wtrace (ws s)) = [0; 1; 2]%nat /\ finished (qs (ws s)) = [0; 1; 2]%nat /\
+  f_all_done (frun seqs (fun _ _ => false) [0; 0; 0; 1; 1; 1; 0; 0; 0; 1; 0; 1]%nat (finit (seq 0 3) 2)) = false.
+Proof. vm_compute. repeat split; reflexivity. Qed.
